@@ -250,3 +250,7 @@ mod tests {
         h2.join().unwrap();
     }
 }
+
+#[cfg(kani)]
+#[path = "/verif/harness/may/sync_sync_flag.rs"]
+mod verif_kani;
